@@ -102,6 +102,11 @@ class _D(ast.NodeTransformer):
                 out.extend(r if isinstance(r, list) else [r])
             return out
         v = node.value
+        if isinstance(v, ast.Call) and isinstance(v.func, ast.Name) and len(v.args) == 1 and not v.keywords and isinstance(v.args[0], ast.IfExp):
+            # W(a if c else b)  ->  W(a) if c else W(b)   (a wrapper named by a plain name: evaluating the name has no effect)
+            ie = v.args[0]
+            v = _loc(ast.IfExp(test=ie.test, body=_loc(ast.Call(func=copy.deepcopy(v.func), args=[ie.body], keywords=[]), node),
+                               orelse=_loc(ast.Call(func=copy.deepcopy(v.func), args=[ie.orelse], keywords=[]), node)), node)
         if isinstance(v, ast.IfExp):
             a = self.visit(_loc(ast.Return(value=v.body), node))
             b = self.visit(_loc(ast.Return(value=v.orelse), node))
